@@ -119,10 +119,13 @@ def tlc_schedules(LF, W, timeout=300):
             f.write("CONSTANTS\n  LF = %d\n  W = %d\nSPECIFICATION Spec\nINVARIANT TypeOK\nINVARIANT InFlight\n" % (LF, W))
         shutil.copy(os.path.join(TLA_DIR, "Pool.tla"), os.path.join(tmp, "Pool.tla"))
         out = os.path.join(tmp, "graph")
-        p = subprocess.run(
-            ["tlc", "-workers", "1", "-noGenerateSpecTE", "-metadir", os.path.join(tmp, "meta"), "-deadlock",
-             "-dump", "dot,actionlabels", out, "-config", cfg, os.path.join(tmp, "Pool.tla")],
-            capture_output=True, text=True, timeout=timeout, cwd=tmp)
+        try:
+            p = subprocess.run(
+                ["tlc", "-workers", "1", "-noGenerateSpecTE", "-metadir", os.path.join(tmp, "meta"), "-deadlock",
+                 "-dump", "dot,actionlabels", out, "-config", cfg, os.path.join(tmp, "Pool.tla")],
+                capture_output=True, text=True, timeout=timeout, cwd=tmp)
+        except subprocess.TimeoutExpired:
+            return None  # (an overloaded machine: the cross-check is reported as skipped, the Python enumeration still runs)
         if "Model checking completed. No error has been found." not in p.stdout:
             raise HarnessError("TLC failed on Pool.tla (LF=%d, W=%d):\n%s" % (LF, W, p.stdout[-2000:] + p.stderr[-500:]))
         m = re.search(r"(\d+) states generated, (\d+) distinct states found", p.stdout)
